@@ -112,7 +112,16 @@ def plan(tier, seed):
             b.append({"gen": "tls_values", "msg": msg, "seed": s + i, "reps": TLS_REPS[msg]})
         for i in range(4 if q else 40):
             b.append({"gen": "tls_bytes", "msg": msg, "seed": s + i, "n": 20 if q else 60, "nbytes": 800})
-    return b
+    # round-robin over (generator, message) groups: a budget cut-off then thins every codec evenly
+    groups = {}
+    for x in b:
+        groups.setdefault((x["gen"], x.get("msg"), x.get("what")), []).append(x)
+    out = []
+    while any(groups.values()):
+        for k in list(groups):
+            if groups[k]:
+                out.append(groups[k].pop(0))
+    return out
 
 
 def run_batch(batch):
